@@ -372,9 +372,9 @@ type outcome struct {
 	ids     []ReqID  // returned IDs, Host = canonical host index
 	obs     *obsRest // merged total / histogram / aggregations / number of soft errors
 	// API level
-	api     string // grpc:invalid grpc:internal only-error resp
-	apiFlag bool
-	apiCode string // no partial
+	api      string // grpc:invalid grpc:internal only-error resp
+	apiFlag  bool
+	apiCode  string // no partial
 	apiTotal int64
 	apiHist  bool // the response carries a histogram
 	// fetch
@@ -1152,7 +1152,6 @@ func hasFailure(sc *Script) bool {
 	}
 	return false
 }
-
 
 // ---------------------------------------------------------------- extension: rendering, merge, page
 
@@ -2147,7 +2146,7 @@ func main() {
 	nFds, nMerge, nMergeBig, nPage, nAggBig, nHist := 700, 600, 8, 800, 6, 350
 	if *tier == "thorough" {
 		nSearch, nSeq, nFetch, nDocs = 40000, 15000, 25000, 12000
-		nFds, nMerge, nMergeBig, nPage, nAggBig, nHist = 6000, 6000, 40, 8000, 30, 3000
+		nFds, nMerge, nMergeBig, nPage, nAggBig, nHist = 4000, 4000, 40, 5000, 30, 2000
 	}
 	scripts := genExhaustive()
 	w.Exhaust = true
